@@ -5,9 +5,7 @@ import DnsVerif.Props.C07
 #print axioms DnsVerif.Props.C07.createBuckets_partition
 #print axioms DnsVerif.Props.C07.createBuckets_no_split
 #print axioms DnsVerif.Props.C07.builder_eq_spec
-#print axioms DnsVerif.Props.C07.batches_eq_spec_partial
-#print axioms DnsVerif.Props.C07.batches_hang
-#print axioms DnsVerif.Props.C07.batches_eq_spec_fails
+#print axioms DnsVerif.Props.C07.batches_eq_spec
 #print axioms DnsVerif.Props.C07.cdb_eq_spec
 #print axioms DnsVerif.Props.C07.compile_error_iff
 #print axioms DnsVerif.Props.C07.compile_config_independent
